@@ -223,4 +223,200 @@ theorem items_rt : ∀ (items : Items) (f : Facts), ItemsWF WFin sch f items →
 end
 end
 
+/-! ### scoped recursion: the name mapping follows the namespace declarations in scope -/
+
+/-- contract of a scoped converter.  The one-level round trip `rt` holds in every scope; `Inv sc nm v` is what a
+    converted child named `nm` looks like *to an element whose scope is `sc`* (the child itself was converted in
+    the scope extended with its own declarations: `inv`); `element_encode` reports exactly the declarations that
+    `get_xmlns_from_data` reads from the object (`encXmlns`), the normalisation keeps the declarations
+    (`normXmlns`), and values related by `R` carry the same declarations (`xmlnsR`). -/
+structure ScopedOK (c : SConv) (Inv : NsScope → String → J → Prop)
+    (WFin : NsScope → Facts → Hd → List (Item Unit) → Prop)
+    (norm1 : {α : Type} → Facts → Hd → List (Item α) → Hd × List (Item α))
+    (R : J → J → Prop) : Prop where
+  rt : ∀ sc f hd (its : List (Item J)), WFin sc f hd (shape its) →
+      (∀ nm s v, Item.child nm s v ∈ its → Inv sc nm v) →
+      ∃ its', (c.cv sc).enc f hd.tag ((c.cv sc).dec f hd its) = .ok ((norm1 f hd its).1, its') ∧
+        ItemsRel R (norm1 f hd its).2 its'
+  encR : ∀ sc f nm v v', R v v' → (c.cv sc).enc f nm v' = (c.cv sc).enc f nm v
+  inv : ∀ sc f hd (its : List (Item J)), WFin (sc.push hd.xmlns) f hd (shape its) →
+      (∀ nm s v, Item.child nm s v ∈ its → Inv (sc.push hd.xmlns) nm v) →
+      Inv sc hd.tag ((c.cv (sc.push hd.xmlns)).dec f hd its)
+  natural : ∀ {α β} (g : α → β) f hd (its : List (Item α)),
+      norm1 f hd (mapIt g its) = ((norm1 f hd its).1, mapIt g (norm1 f hd its).2)
+  children : ∀ {α} f hd (its : List (Item α)) nm s v,
+      Item.child nm s v ∈ (norm1 f hd its).2 → ∃ s', Item.child nm s' v ∈ its
+  encXmlns : ∀ sc f nm v hd its, (c.cv sc).enc f nm v = .ok (hd, its) → hd.xmlns = c.xmlnsOf v
+  normXmlns : ∀ f hd (its : List (Item J)), (norm1 f hd its).1.xmlns = hd.xmlns
+  xmlnsR : ∀ v v', R v v' → c.xmlnsOf v' = c.xmlnsOf v
+
+/-- a family of converters each of which meets the one-level contract with one scope-independent invariant
+    (the converted children do not mention prefixed names: DataElement) is a scoped converter -/
+theorem ScopedOK.ofLevel {c : SConv} {Inv : String → J → Prop}
+    {WFin : NsScope → Facts → Hd → List (Item Unit) → Prop}
+    {norm1 : {α : Type} → Facts → Hd → List (Item α) → Hd × List (Item α)} {R : J → J → Prop}
+    (level : ∀ sc, LevelOK (c.cv sc) Inv (WFin sc) norm1 R)
+    (encXmlns : ∀ sc f nm v hd its, (c.cv sc).enc f nm v = .ok (hd, its) → hd.xmlns = c.xmlnsOf v)
+    (normXmlns : ∀ f hd (its : List (Item J)), (norm1 f hd its).1.xmlns = hd.xmlns)
+    (xmlnsR : ∀ v v', R v v' → c.xmlnsOf v' = c.xmlnsOf v) :
+    ScopedOK c (fun _ => Inv) WFin norm1 R where
+  rt := fun sc => (level sc).rt
+  encR := fun sc => (level sc).encR
+  inv := fun sc f hd its => (level (sc.push hd.xmlns)).inv f hd its
+  natural := (level []).natural
+  children := (level []).children
+  encXmlns := encXmlns
+  normXmlns := normXmlns
+  xmlnsR := xmlnsR
+
+mutual
+/-- a typed tree every level of which is an admissible input *in its own scope* -/
+def TreeWFS (WFin : NsScope → Facts → Hd → List (Item Unit) → Prop) (sch : Nat → Option Facts)
+    (sc : NsScope) : Node → Prop
+  | .mk f hd items =>
+      WFin (sc.push hd.xmlns) f hd (shape items.toList) ∧ ItemsWFS WFin sch (sc.push hd.xmlns) f items
+def ItemsWFS (WFin : NsScope → Facts → Hd → List (Item Unit) → Prop) (sch : Nat → Option Facts)
+    (sc : NsScope) (f : Facts) : Items → Prop
+  | .nil => True
+  | .cdata _ _ r => ItemsWFS WFin sch sc f r
+  | .child nm _ n r =>
+      n.hd.tag = nm ∧ (∃ ch, findChild f nm = some ch ∧ sch ch.ty = some n.f) ∧
+      TreeWFS WFin sch sc n ∧ ItemsWFS WFin sch sc f r
+end
+
+theorem decItemsS_eq (c : SConv) (sc : NsScope) :
+    ∀ items : Items, decItemsS c sc items = mapIt (decTreeS c sc) items.toList
+  | .nil => by simp [decItemsS, Items.toList, mapIt]
+  | .cdata i v r => by
+    have := decItemsS_eq c sc r
+    simp [decItemsS, Items.toList, mapIt, Item.map] at this ⊢; exact this
+  | .child nm s n r => by
+    have := decItemsS_eq c sc r
+    simp [decItemsS, Items.toList, mapIt, Item.map] at this ⊢; exact this
+
+theorem encTreeS_congr (c : SConv) (sch : Nat → Option Facts) (fuel : Nat) (sc : NsScope) (f : Facts)
+    (nm : String) (v v' : J) (hx : c.xmlnsOf v' = c.xmlnsOf v)
+    (h : ∀ sc', (c.cv sc').enc f nm v' = (c.cv sc').enc f nm v) :
+    encTreeS c sch fuel sc f nm v' = encTreeS c sch fuel sc f nm v := by
+  cases fuel with
+  | zero => rfl
+  | succ k => simp only [encTreeS, hx, h]
+
+/-- `encItems_ok` with the decoder of the scope -/
+theorem encItems_okS (c : SConv) (sc : NsScope) (sch : Nat → Option Facts)
+    (norm1 : {α : Type} → Facts → Hd → List (Item α) → Hd × List (Item α))
+    (rec : Facts → String → J → Except Err Node) (f : Facts) (R : J → J → Prop) :
+    ∀ (l : List (Item Node)) (its' : List (Item J)), ItemsRel R (mapIt (decTreeS c sc) l) its' →
+      (∀ nm s n, Item.child nm s n ∈ l →
+        ∃ ch, findChild f nm = some ch ∧ sch ch.ty = some n.f ∧
+          ∀ v', R (decTreeS c sc n) v' → rec n.f nm v' = .ok (normTree norm1 n)) →
+      encItems sch rec f its' = .ok (Items.ofList (mapIt (normTree norm1) l)) := by
+  intro l
+  induction l with
+  | nil =>
+    intro its' hrel _
+    simp only [mapIt, List.map_nil] at hrel
+    cases hrel
+    rfl
+  | cons a l ih =>
+    intro its' hrel h
+    simp only [mapIt, List.map_cons] at hrel
+    cases hrel with
+    | cons hab hrest =>
+      have ih' := ih _ hrest (fun nm s n hm => h nm s n (by simp [hm]))
+      cases a with
+      | cdata i v =>
+        simp only [Item.map] at hab
+        cases hab
+        simp only [mapIt, List.map_cons, Item.map, encItems] at ih' ⊢
+        rw [ih']
+        rfl
+      | child nm s n =>
+        simp only [Item.map] at hab
+        cases hab with
+        | child _ _ _ v' hr =>
+          obtain ⟨ch, h1, h2, h3⟩ := h nm s n (by simp)
+          simp only [mapIt, List.map_cons, Item.map, encItems, h1, h2, h3 v' hr] at ih' ⊢
+          rw [ih']
+          rfl
+
+section
+variable (c : SConv) {Inv : NsScope → String → J → Prop}
+  {WFin : NsScope → Facts → Hd → List (Item Unit) → Prop}
+  {norm1 : {α : Type} → Facts → Hd → List (Item α) → Hd × List (Item α)} {R : J → J → Prop}
+  (S : ScopedOK c Inv WFin norm1 R) (sch : Nat → Option Facts)
+include S
+
+mutual
+/-- the one-level round trips lift to whole trees when the name mapping follows the declarations in scope:
+    every element is decoded and re-encoded under the declarations of its ancestors-or-self, whatever its
+    siblings and their descendants declare -/
+theorem tree_rt_scoped : ∀ (n : Node) (sc : NsScope), TreeWFS WFin sch sc n → ∀ fuel, n.depth ≤ fuel →
+    encTreeS c sch fuel sc n.f n.hd.tag (decTreeS c sc n) = .ok (normTree norm1 n) ∧
+    Inv sc n.hd.tag (decTreeS c sc n)
+  | .mk f hd items, sc, hw, fuel, hfuel => by
+    simp only [TreeWFS] at hw
+    obtain ⟨hin, hitems⟩ := hw
+    simp only [Node.depth] at hfuel
+    obtain ⟨fuel', rfl⟩ : ∃ k, fuel = k + 1 := ⟨fuel - 1, by omega⟩
+    have hI := items_rt_scoped items (sc.push hd.xmlns) f hitems fuel' (by omega)
+    have hdec : decItemsS c (sc.push hd.xmlns) items = mapIt (decTreeS c (sc.push hd.xmlns)) items.toList :=
+      decItemsS_eq c _ items
+    have hin' : WFin (sc.push hd.xmlns) f hd (shape (decItemsS c (sc.push hd.xmlns) items)) := by
+      rw [hdec, shape_mapIt]; exact hin
+    have hinv : ∀ nm s v, Item.child nm s v ∈ decItemsS c (sc.push hd.xmlns) items →
+        Inv (sc.push hd.xmlns) nm v := by
+      intro nm s v hm
+      rw [hdec] at hm
+      obtain ⟨n, hn, rfl⟩ := mem_mapIt_child _ _ _ _ _ hm
+      exact (hI nm s n hn).2.2.2
+    refine ⟨?_, ?_⟩
+    · obtain ⟨its', henc, hrel⟩ := S.rt _ f hd _ hin' hinv
+      -- the declarations read back from the decoded object are the element's own
+      have hx : c.xmlnsOf ((c.cv (sc.push hd.xmlns)).dec f hd (decItemsS c (sc.push hd.xmlns) items)) = hd.xmlns := by
+        rw [← S.encXmlns _ _ _ _ _ _ henc]
+        exact S.normXmlns f hd _
+      simp only [Node.f, Node.hd, decTreeS, encTreeS]
+      rw [hx, henc]
+      rw [hdec, S.natural] at hrel ⊢
+      simp only [bind, Except.bind]
+      rw [encItems_okS c (sc.push hd.xmlns) sch norm1 (encTreeS c sch fuel' (sc.push hd.xmlns)) f R _ its' hrel]
+      · simp only [pure, Except.pure, normTree]
+        rw [normItems_eq, S.natural]
+      · intro nm s n hm
+        obtain ⟨s', hs'⟩ := S.children f hd _ nm s n hm
+        obtain ⟨_, ⟨ch, h1, h2⟩, h3, _⟩ := hI nm s' n hs'
+        refine ⟨ch, h1, h2, ?_⟩
+        intro v' hr
+        rw [encTreeS_congr c sch fuel' _ n.f nm _ v' (S.xmlnsR _ _ hr)
+          (fun sc' => S.encR sc' n.f nm _ v' hr)]
+        exact h3
+    · simp only [Node.hd, decTreeS]
+      exact S.inv sc f hd _ hin' hinv
+theorem items_rt_scoped : ∀ (items : Items) (sc : NsScope) (f : Facts), ItemsWFS WFin sch sc f items →
+    ∀ fuel, items.depth ≤ fuel →
+    ∀ nm s n, Item.child nm s n ∈ items.toList →
+      n.hd.tag = nm ∧ (∃ ch, findChild f nm = some ch ∧ sch ch.ty = some n.f) ∧
+      encTreeS c sch fuel sc n.f nm (decTreeS c sc n) = .ok (normTree norm1 n) ∧ Inv sc nm (decTreeS c sc n)
+  | .nil, _, _, _, _, _, nm, s, n, hm => by simp [Items.toList] at hm
+  | .cdata i v r, sc, f, hw, fuel, hfuel, nm, s, n, hm => by
+    simp only [ItemsWFS] at hw
+    simp only [Items.depth] at hfuel
+    simp only [Items.toList, List.mem_cons] at hm
+    rcases hm with hm | hm
+    · cases hm
+    · exact items_rt_scoped r sc f hw fuel hfuel nm s n hm
+  | .child nm' s' n' r, sc, f, hw, fuel, hfuel, nm, s, n, hm => by
+    simp only [ItemsWFS] at hw
+    obtain ⟨htag, hch, hn', hr⟩ := hw
+    simp only [Items.depth] at hfuel
+    simp only [Items.toList, List.mem_cons, Item.child.injEq] at hm
+    rcases hm with ⟨rfl, rfl, rfl⟩ | hm
+    · refine ⟨htag, hch, ?_, ?_⟩
+      · rw [← htag]; exact (tree_rt_scoped n sc hn' fuel (by omega)).1
+      · rw [← htag]; exact (tree_rt_scoped n sc hn' fuel (by omega)).2
+    · exact items_rt_scoped r sc f hr fuel (by omega) nm s n hm
+end
+end
+
 end XsVerif.Conv
